@@ -27,6 +27,20 @@ fn main() {
         "C08" => bprops::run("C08", replay),
         "C11" => bprops::run("C11", replay),
         "C16" => bprops::run("C16", replay),
+        "warm" => {
+            // pre-compiles the batch cache for the current /repo tree (used by setup and after big changes)
+            let thorough = vcommon::tier() == "thorough";
+            let (grammars, _) = bfam::family("C01", thorough);
+            let out = engine_b::run_family(&grammars, &[], false);
+            println!(
+                "warm: {} grammars generated, {} batches, {} cache hits, {} compile failures",
+                out.gens.len(),
+                out.batches,
+                out.cache_hits,
+                out.compile_failures.len()
+            );
+            0
+        }
         "count" => {
             stats::count_families(&args[2..]);
             0
